@@ -139,7 +139,7 @@ def run_model(model_name, wires, tmp):
         lines = [l for l in lines if l]
         if rc != 0 or len(lines) != k:
             raise RuntimeError("model driver failed rc=%s (%d/%d lines)" % (rc, len(lines), k))
-        outs.append([from_wire(l) for l in lines])
+        outs.append(lines)
     res = [None] * len(wires)
     for i in range(n):
         res[i::n] = outs[i]
@@ -177,7 +177,7 @@ def run_impl(prop, cases, tmp, tag="i"):
         obs = [json.loads(l) for l in lines]
         # a worker that died: mark the rest as crashed
         while len(obs) < k:
-            obs.append(["WORKER-DIED", err.decode("utf8", "replace")[-300:]])
+            obs.append({"fail": ["WORKER-DIED", err.decode("utf8", "replace")[-300:]]})
         outs.append(obs)
     res = [None] * len(cases)
     for i in range(n):
@@ -189,6 +189,7 @@ def worker(prop, fin, fout):
     import faulthandler, signal
     mod = importlib.import_module("props." + prop)
     per_case_timeout = getattr(mod, "CASE_TIMEOUT", 20)
+    canon_i = getattr(mod, "canon_impl", lambda c, o: o)
 
     class CaseTimeout(BaseException):
         pass
@@ -200,15 +201,27 @@ def worker(prop, fin, fout):
         for line in open(fin):
             case = json.loads(line)
             signal.alarm(per_case_timeout)
+            rec = {}
             try:
                 obs = mod.run_impl(case)
+                ci = canon_i(case, obs)
+                rec["w"] = to_wire(ci)
+                try:
+                    rec["o"] = mod.oracle(case, obs)
+                except Exception as e:
+                    rec["o"] = "oracle-crashed:%s" % type(e).__name__
+                try:
+                    k = mod.nontrivial_key(case, obs)
+                except Exception:
+                    k = None
+                rec["k"] = None if k is None else hashlib.md5(json.dumps(k, sort_keys=True).encode()).hexdigest()
             except CaseTimeout:
-                obs = ["IMPL-TIMEOUT"]
+                rec = {"fail": ["IMPL-TIMEOUT"]}
             except BaseException as e:  # harness-level failure: report, do not hide
-                obs = ["HARNESS-EXC", type(e).__name__, str(e)[:300], traceback.format_exc()[-600:]]
+                rec = {"fail": ["HARNESS-EXC", type(e).__name__, str(e)[:300], traceback.format_exc()[-600:]]}
             finally:
                 signal.alarm(0)
-            out.write(json.dumps(obs) + "\n")
+            out.write(json.dumps(rec) + "\n")
             out.flush()
 
 
@@ -229,21 +242,16 @@ class Evaluator:
         t2 = time.time()
         self.t_impl, self.t_model = t1 - t0, t2 - t1
         res = []
-        canon_i = getattr(mod, "canon_impl", lambda c, o: o)
-        canon_m = getattr(mod, "canon_model", lambda c, o: o)
+        canon_m = getattr(mod, "canon_model", None)
         for c, i, m in zip(cases, impl, model):
-            harness_fail = isinstance(i, list) and i and i[0] in ("HARNESS-EXC", "WORKER-DIED", "IMPL-TIMEOUT")
-            if harness_fail:
-                res.append({"case": c, "impl": i, "model": m, "diverges": True,
-                            "oracle": "impl-run-failed:%s" % i[0]})
+            if "fail" in i:
+                res.append({"case": c, "impl_w": json.dumps(i["fail"]), "model_w": m, "diverges": True,
+                            "oracle": "impl-run-failed:%s" % i["fail"][0], "key": None})
                 continue
-            ci, cm = canon_i(c, i), canon_m(c, m)
-            div = ci != cm
-            try:
-                orc = mod.oracle(c, i)
-            except Exception as e:
-                orc = "oracle-crashed:%s" % type(e).__name__
-            res.append({"case": c, "impl": ci, "model": cm, "diverges": div, "oracle": orc})
+            mw = m.strip()
+            if canon_m is not None:
+                mw = to_wire(canon_m(c, from_wire(mw)))
+            res.append({"case": c, "impl_w": i["w"], "model_w": mw, "diverges": i["w"] != mw, "oracle": i["o"], "key": i["k"]})
         return res
 
 
@@ -283,11 +291,18 @@ def shrink(ev, mod, case, cls_pred, budget=40):
     return cur
 
 
+def parsed(w):
+    try:
+        return from_wire(w)
+    except Exception:
+        return w
+
+
 def write_replay(prop, kind, tier, seed, r, extra=None):
     os.makedirs(os.path.join(ROOT, "replays"), exist_ok=True)
     body = {"property": prop, "kind": kind, "tier": tier, "seed": seed}
     if r is not None:
-        body.update({"case": r["case"], "impl": r["impl"], "model": r["model"], "oracle": r["oracle"],
+        body.update({"case": r["case"], "impl": parsed(r["impl_w"]), "model": parsed(r["model_w"]), "oracle": r["oracle"],
                      "diverges": r["diverges"]})
     if extra:
         body.update(extra)
@@ -340,7 +355,7 @@ def run_check(prop, mod, tier, seed, tmp, replay, t_start, log):
             print("replay names a proof obligation / correspondence only:", body.get("broken"))
             return 1 if (failures or not ok_build) else 0
         r = ev([body["case"]])[0]
-        print(json.dumps({k: r[k] for k in ("impl", "model", "diverges", "oracle")}, indent=1)[:4000])
+        print(json.dumps({"impl": parsed(r["impl_w"]), "model": parsed(r["model_w"]), "diverges": r["diverges"], "oracle": r["oracle"]})[:4000])
         if hasattr(mod, "describe"):
             print(mod.describe(r["case"]))
         bad = r["oracle"] is not None or r["diverges"]
@@ -436,19 +451,12 @@ def run_check(prop, mod, tier, seed, tmp, replay, t_start, log):
             violations.append((path, " no-failing-input-found"))
 
     # --- evidence
-    keys = set()
-    for r in results:
-        try:
-            k = mod.nontrivial_key(r["case"], r["impl"])
-        except Exception:
-            k = None
-        if k is not None:
-            keys.add(json.dumps(k, sort_keys=True))
+    keys = set(r["key"] for r in results if r["key"] is not None)
     samples = []
     step = max(1, len(results) // 5)
     for r in results[n_corpus::step][:5]:
-        samples.append({"case": mod.describe(r["case"]) if hasattr(mod, "describe") else r["case"],
-                        "impl_obs": r["impl"] if len(json.dumps(r["impl"])) < 600 else "(long)"})
+        samples.append({"case": (mod.describe(r["case"]) if hasattr(mod, "describe") else r["case"]),
+                        "impl_obs": parsed(r["impl_w"]) if len(r["impl_w"]) < 600 else r["impl_w"][:600] + " ..."})
     evidence = {
         "property_id": prop, "tier": tier, "seed": seed, "level": "proof",
         "coverage": {
@@ -484,9 +492,9 @@ def run_check(prop, mod, tier, seed, tmp, replay, t_start, log):
         json.dump(evidence, f, indent=1)
     if os.environ.get("VERIF_DEBUG"):
         for r in [r for r in results if r["diverges"]][:int(os.environ["VERIF_DEBUG"])]:
-            print("DIVERGES", json.dumps(r["case"])[:300], "\n   impl ", json.dumps(r["impl"])[:400], "\n   model", json.dumps(r["model"])[:400])
+            print("DIVERGES", json.dumps(r["case"])[:300], "\n   impl ", r["impl_w"][:400], "\n   model", r["model_w"][:400])
         for r in fails[:int(os.environ["VERIF_DEBUG"])]:
-            print("ORACLE", r["oracle"], json.dumps(r["case"])[:300], "\n   impl ", json.dumps(r["impl"])[:400])
+            print("ORACLE", r["oracle"], json.dumps(r["case"])[:300], "\n   impl ", r["impl_w"][:400])
     for l in known_lines:
         print(l)
     print("%s %s: %d cases (%d distinct non-trivial), %d divergences, %d oracle failures, obligations %d/%d, %.1fs" % (
